@@ -50,7 +50,8 @@ CONSTANTS
     Filters,      \* set of filters [n, a] (see Pass)
     Order,        \* the phases in the order they are applied: <<"open","close","clear","filter">> as stated (permuted or with
                   \*   a phase repeated in the non-vacuity configurations)
-    CompileMode   \* "stated": as the statement says;  "shipped": OPEN with a bare CLOSE crashes (TypeError), as /repo does
+    CompileMode   \* "stated": as the statement says (and as /repo does since 41a2136);  "shipped": the compile step as shipped
+                  \*   before that fix -- OPEN with a bare CLOSE crashes (TypeError); kept for the non-vacuity run
 
 -----------------------------------------------------------------------------
 (* Numbers *)
@@ -270,7 +271,7 @@ Statement ==
 Compile ==
     /\ status = "compile"
     /\ IF CompileMode = "shipped" /\ HasOpen(cfg) /\ cfg.close = 0
-       THEN status' = "crashed" /\ UNCHANGED pc            \* `node.open > node.close` with close = True
+       THEN status' = "crashed" /\ UNCHANGED pc            \* before 41a2136: `node.open > node.close` with close = True
        ELSE IF Rejected(cfg) THEN status' = "rejected" /\ UNCHANGED pc
        ELSE status' = "run" /\ pc' = Program(cfg)
     /\ UNCHANGED <<ledger, cfg, entries, report>>
